@@ -36,6 +36,25 @@ type WireFault struct {
 	B      int    `json:"b,omitempty"`
 }
 
+// WireStall is a pure delay fault of the delay-only (passive) configuration:
+// the Frame-th frame travelling in direction Dir on the Conn-th connection of
+// reader Reader reaches the far end in pieces (cut at Cuts, per-mille of the
+// frame length) with a pause of GapMs[i] milliseconds before piece i+1, as a
+// congested or briefly black-holed TCP path delivers a segment train. With
+// PastDeadline the first pause additionally lasts until the read deadline the
+// receiving end has pending at that moment (read from the running code) has
+// passed. Nothing is altered, dropped, duplicated or reordered; every later
+// frame queues up behind the stalled one.
+type WireStall struct {
+	Reader       int     `json:"reader"`
+	Conn         int     `json:"conn"`
+	Dir          int     `json:"dir"`
+	Frame        int     `json:"frame"`
+	Cuts         []int   `json:"cuts"`
+	GapMs        []int64 `json:"gap_ms"`
+	PastDeadline bool    `json:"past_deadline,omitempty"`
+}
+
 type timeoutErr struct{}
 
 func (timeoutErr) Error() string   { return "i/o timeout (simulated)" }
@@ -93,6 +112,21 @@ type half struct {
 	dlvBytes int64
 	bounds   map[int64]bool
 	consumed int64
+	starts   []int64 // start offsets of the delivered frames (ascending)
+	pieces   int     // frames delivered in pieces (delay-only fault)
+}
+
+// frameOffset returns how far into a delivered frame the byte offset off of
+// the stream lies (0 = at a frame boundary).
+func (h *half) frameOffset(off int64) int64 {
+	st := int64(0)
+	for _, s := range h.starts {
+		if s > off {
+			break
+		}
+		st = s
+	}
+	return off - st
 }
 
 func (h *half) buffered() int {
@@ -113,31 +147,32 @@ func (h *half) pump() {
 }
 
 type link struct {
-	n          *simNet
-	reader     int
-	idx        int // per-reader connection index
-	half       [2]*half
-	closedBy   string // "reader" "writer" "adversary" (first close)
-	closedAt   int64
-	closeNote  string
-	touched    bool // the adversary acted on this link (or it ever exerted back-pressure)
-	openedAt   int64
-	clientRst  bool // reader end sees a reset
-	serverRst  bool
-	ends       [2]*end
+	n           *simNet
+	reader      int
+	idx         int // per-reader connection index
+	half        [2]*half
+	closedBy    string // "reader" "writer" "adversary" (first close)
+	closedAt    int64
+	closeNote   string
+	touched     bool // the adversary acted on this link (or it ever exerted back-pressure)
+	openedAt    int64
+	clientRst   bool // reader end sees a reset
+	serverRst   bool
+	ends        [2]*end
 	staleAtDial bool // the writer had not yet closed its end of this reader's previous connection
 }
 
 func (l *link) name() string { return fmt.Sprintf("r%d/c%d", l.reader, l.idx) }
 
 type end struct {
-	l      *link
-	side   int // 0 = reader (client), 1 = writer (server)
-	closed bool
-	rdl    time.Time
-	wdl    time.Time
-	rt, wt *simrt.Timer
-	midTO  int // read deadlines that expired after part of a frame had been consumed
+	l        *link
+	side     int // 0 = reader (client), 1 = writer (server)
+	closed   bool
+	rdl      time.Time
+	wdl      time.Time
+	rt, wt   *simrt.Timer
+	midTO    int // read deadlines that expired after part of a frame had been consumed
+	midPayTO int // ... of which inside the frame's payload
 }
 
 // simNet is the per-run network.
@@ -145,12 +180,20 @@ type simNet struct {
 	links     []*link
 	perReader map[int]int
 	faults    []WireFault
-	latencyNs int64
-	capBytes  int
-	fired     int
-	onAccept  func(c net.Conn, l *link)
-	dialFail  map[int]bool // global dial attempt indexes that fail
-	dials     int
+	stalls    []WireStall
+	stalled   int // frames delivered in pieces
+	// maxDelayNs bounds how long after it was written a byte of a stalled
+	// frame (or of a frame queued behind it) may reach the far end: a pure
+	// delay fault stays inside the freshness window of the stream's own
+	// replay defence, beyond which a late frame is rightly refused as a
+	// replayed one. Set by the harness from the running code.
+	maxDelayNs int64
+	latencyNs  int64
+	capBytes   int
+	fired      int
+	onAccept   func(c net.Conn, l *link)
+	dialFail   map[int]bool // global dial attempt indexes that fail
+	dials      int
 }
 
 func newSimNet() *simNet { return &simNet{perReader: map[int]int{}, dialFail: map[int]bool{}} }
@@ -230,6 +273,11 @@ func (e *end) Read(p []byte) (int, error) {
 			simrt.Count("probe.read_deadline_expired", 1)
 			if h.consumed != 0 && !h.bounds[h.consumed] {
 				simrt.Count("probe.read_deadline_expired_mid_frame", 1)
+				if h.frameOffset(h.consumed) > 5 {
+					// at least one payload byte consumed, at least one missing
+					simrt.Count("probe.read_deadline_expired_mid_payload", 1)
+					e.midPayTO++
+				}
 				e.midTO++
 				simrt.Event("READ-TIMEOUT-MID-FRAME %s side=%s", e.l.name(), e.who())
 			}
@@ -313,8 +361,10 @@ func (e *end) Close() error {
 	return nil
 }
 
-func (e *end) LocalAddr() net.Addr  { return simAddr(fmt.Sprintf("sim-%s-%s", e.l.name(), e.who())) }
-func (e *end) RemoteAddr() net.Addr { return simAddr(fmt.Sprintf("sim-%s-peer-of-%s", e.l.name(), e.who())) }
+func (e *end) LocalAddr() net.Addr { return simAddr(fmt.Sprintf("sim-%s-%s", e.l.name(), e.who())) }
+func (e *end) RemoteAddr() net.Addr {
+	return simAddr(fmt.Sprintf("sim-%s-peer-of-%s", e.l.name(), e.who()))
+}
 
 func (e *end) SetDeadline(t time.Time) error {
 	e.SetReadDeadline(t)
@@ -431,7 +481,85 @@ func (h *half) faultFor(idx int) *WireFault {
 // passed on byte by byte as it is written (a reader can observe a partially
 // arrived frame, as on a real socket); otherwise whole frames are delivered.
 func (h *half) cutThrough(idx int) bool {
-	return h.l.n.latencyNs == 0 && h.held == nil && len(h.q) == 0 && !h.blackh && h.faultFor(idx) == nil
+	return h.l.n.latencyNs == 0 && h.held == nil && len(h.q) == 0 && !h.blackh && h.faultFor(idx) == nil && h.stallFor(idx) == nil
+}
+
+// stallFor returns the delay-only fault planned for frame idx of this half.
+func (h *half) stallFor(idx int) *WireStall {
+	n := h.l.n
+	for i := range n.stalls {
+		x := &n.stalls[i]
+		if x.Reader == h.l.reader && x.Conn == h.l.idx && x.Dir == h.dir && x.Frame == idx {
+			return x
+		}
+	}
+	return nil
+}
+
+// enqueue makes data readable at the far end at time at (never before
+// anything handed over earlier).
+func (h *half) enqueue(data []byte, at int64) {
+	if at < h.lastAt {
+		at = h.lastAt
+	}
+	h.lastAt = at
+	if at <= simrt.SimNow() && len(h.q) == 0 {
+		h.rbuf = append(h.rbuf, data...)
+		return
+	}
+	h.q = append(h.q, qframe{data: data, at: at})
+	simrt.NewTimer(time.Duration(at - simrt.SimNow())) // lets the clock reach the delivery time
+}
+
+// deliverPieces hands an unmodified frame to the far end in pieces with pauses
+// in between (pure delay).
+func (h *half) deliverPieces(fr []byte, s *WireStall) {
+	h.noteDelivered(fr, false)
+	var cuts []int
+	for _, c := range s.Cuts {
+		k := 1 + int(int64(c)*int64(len(fr)-1)/1000)
+		if k >= len(fr) {
+			k = len(fr) - 1
+		}
+		if k >= 1 && (len(cuts) == 0 || k > cuts[len(cuts)-1]) {
+			cuts = append(cuts, k)
+		}
+	}
+	if len(cuts) == 0 {
+		h.enqueue(fr, simrt.SimNow()+h.l.n.latencyNs)
+		return
+	}
+	h.pieces++
+	h.l.n.stalled++
+	simrt.Count("fault.wire_pieces", 1)
+	at := simrt.SimNow() + h.l.n.latencyNs
+	if at < h.lastAt {
+		at = h.lastAt
+	}
+	prev := 0
+	for i, k := range append(cuts, len(fr)) {
+		if i > 0 {
+			gap := int64(0)
+			if i-1 < len(s.GapMs) {
+				gap = s.GapMs[i-1] * int64(time.Millisecond)
+			}
+			if i == 1 && s.PastDeadline {
+				// the read deadline the receiving end has pending right now
+				if rd := h.l.ends[1-h.dir].rdl; !rd.IsZero() {
+					if d := rd.Sub(simrt.Now()); d > 0 && simrt.SimNow()+int64(d) > at {
+						at = simrt.SimNow() + int64(d)
+					}
+				}
+			}
+			at += gap
+			if m := h.l.n.maxDelayNs; m > 0 && at > simrt.SimNow()+m {
+				at = simrt.SimNow() + m // never below lastAt, which obeyed the same bound earlier
+			}
+		}
+		simrt.Event("PIECE %s dir=%d #%d bytes=%d..%d of %d in=%dns", h.l.name(), h.dir, len(h.dlv)-1, prev, k, len(fr), at-simrt.SimNow())
+		h.enqueue(append([]byte(nil), fr[prev:k]...), at)
+		prev = k
+	}
 }
 
 func (h *half) extract() {
@@ -478,6 +606,7 @@ func (h *half) noteDelivered(fr []byte, forged bool) {
 	if h.bounds == nil {
 		h.bounds = map[int64]bool{}
 	}
+	h.starts = append(h.starts, h.dlvBytes)
 	h.dlvBytes += int64(len(fr))
 	if !forged {
 		h.bounds[h.dlvBytes] = true
@@ -486,17 +615,7 @@ func (h *half) noteDelivered(fr []byte, forged bool) {
 
 func (h *half) deliver(fr []byte, forged bool) {
 	h.noteDelivered(fr, forged)
-	at := simrt.SimNow() + h.l.n.latencyNs
-	if at < h.lastAt {
-		at = h.lastAt
-	}
-	h.lastAt = at
-	if at <= simrt.SimNow() && len(h.q) == 0 {
-		h.rbuf = append(h.rbuf, fr...)
-		return
-	}
-	h.q = append(h.q, qframe{data: fr, at: at})
-	simrt.NewTimer(time.Duration(at - simrt.SimNow())) // lets the clock reach the delivery time
+	h.enqueue(fr, simrt.SimNow()+h.l.n.latencyNs)
 }
 
 func (h *half) onFrame(fr []byte, through bool) {
@@ -526,7 +645,11 @@ func (h *half) onFrame(fr []byte, through bool) {
 		return
 	}
 	if f == nil {
-		h.deliver(fr, false)
+		if s := h.stallFor(idx); s != nil {
+			h.deliverPieces(fr, s)
+		} else {
+			h.deliver(fr, false)
+		}
 		h.flushHeld()
 		return
 	}
